@@ -529,12 +529,28 @@ func (c *Ctx) stageHistories(refs map[refKey]*Ref, keys []refKey) {
 		expect map[string]refKey // write op id -> reference
 	}
 	var cases []hcase
-	for i := 0; i < n; i++ {
+	// systematic part: inside every (small) group, each ordered pair of documents - what the first
+	// leaves in the objects they share must not show in the second
+	var preset [][]string
+	for _, g := range gnames {
+		if len(groups[g]) > 7 {
+			continue
+		}
+		for _, a := range groups[g] {
+			for _, b := range groups[g] {
+				preset = append(preset, []string{a, b})
+			}
+		}
+	}
+	c.Ev.Probes["histories_of_every_ordered_pair_in_a_group"] = len(preset)
+	for i := 0; i < len(preset)+n; i++ {
 		h := hcase{spec: &Spec{ID: fmt.Sprintf("hist/%d", i), Order: OrderPlan{Mode: "canon"}}, expect: map[string]refKey{}}
 		var ops []Op
 		// choose documents: half of the histories draw from one shared group
 		var docs []string
-		if len(gnames) > 0 && rng.Intn(2) == 0 {
+		if i < len(preset) {
+			docs = preset[i]
+		} else if len(gnames) > 0 && rng.Intn(2) == 0 {
 			g := groups[gnames[rng.Intn(len(gnames))]]
 			k := 2 + rng.Intn(3)
 			for j := 0; j < k; j++ {
